@@ -24,6 +24,10 @@ import nfc.dep
 import nfc.llcp.llc
 import nfc.tag
 
+import logging
+logging.getLogger("nfc").addHandler(logging.NullHandler())
+logging.getLogger("nfc").propagate = False    # the stack logs every lost frame as a warning
+
 PID = "C15"
 CLF_FILE = os.path.realpath(os.path.join(SRC, "nfc", "clf", "__init__.py"))
 THREADS = ["A", "B", "C"]
@@ -106,7 +110,8 @@ def model_check(ck, d, ex, nthreads, timeout):
     waived, found = set(), {}
     for rnd in range(12):
         write_models(d, ex, waived, nthreads)
-        r = tlc.run("MC_ClfLock.tla", "MC_ClfLock.cfg", PID + "/mc", workers=16, timeout=timeout, cwd=d)
+        # one worker: breadth-first order, hence the counterexample and the state counts, are reproducible
+        r = tlc.run("MC_ClfLock.tla", "MC_ClfLock.cfg", PID + "/mc", workers=1, timeout=timeout, cwd=d)
         ck.cover(states=r.distinct, transitions=r.generated)
         if r.ok:
             ck.cover(mc_depth=r.depth, mc_threads=nthreads, mc_rounds=rnd + 1)
@@ -121,7 +126,7 @@ def model_check(ck, d, ex, nthreads, timeout):
             raise tlc.TLCError("cannot attribute %s violation to a call site\n%s" % (inv, r.out[-3000:]))
         # the two-thread interleaving that makes the race visible (Mutex alone)
         write_models(d, ex, waived, 2)
-        m = tlc.run("MC_ClfLock.tla", "MC_ClfLock_mutex.cfg", PID + "/mcm", workers=8, timeout=timeout, cwd=d)
+        m = tlc.run("MC_ClfLock.tla", "MC_ClfLock_mutex.cfg", PID + "/mcm", workers=1, timeout=timeout, cwd=d)
         mtext = ""
         if m.violated:
             _, mtext = site_of_error_trace(m, "Mutex", waived)
